@@ -467,14 +467,14 @@ func (e *plExec) mutate(cmd string, a []string, line string) (out string) {
 	}()
 	switch cmd {
 	case "type.new":
-		t, err := acmelib.NewIntegerSignalType(sprintf("t%s", a[0]), atoi(a[1]), false)
+		t, err := acmelib.NewIntegerSignalType(sprintf("t%d", atoi(a[0])%2), atoi(a[1]), false) // names of types and enums identify nothing
 		if err != nil {
 			return errOut(err)
 		}
 		e.types[atoi(a[0])] = t
 		return "ok"
 	case "enum.new":
-		e.enums[atoi(a[0])] = acmelib.NewSignalEnum("e" + a[0])
+		e.enums[atoi(a[0])] = acmelib.NewSignalEnum(sprintf("e%d", atoi(a[0])%2))
 		return "ok"
 	case "val.new":
 		v := acmelib.NewSignalEnumValue(a[1], atoi(a[2]))
